@@ -509,3 +509,18 @@ PROPS["C15"]["level_note"] = (
     "they read again (replayed by the pressure suite on every run); and DESIGN D21: such a writer never polls its close branch, so the "
     "slow consumer is not disconnected when its queue overflows until it reads again. Repaired: the permanent variant (writers holding partial "
     "batches waiting for each other for ever, DESIGN D25) — see known_findings.txt.")
+
+
+# C11: the whole-message round trip is proved (Theorems/C11Full.lean)
+PROPS["C11"]["theorems"] = ["Narwhal.Theorems.C11", "Narwhal.Theorems.C11Full"]
+PROPS["C11"]["expect_theorems"] = list(PROPS["C11"]["expect_theorems"]) + ["Narwhal.Codec.C11_roundtrip", "Narwhal.Codec.C11_roundtrip_schema"]
+PROPS["C11"]["level_text"] = (
+    "Proved in Lean: for every well-formed schema (well-formedness of the schema regenerated from message.rs is re-decided by the kernel on every "
+    "run) every well-typed message of every kind that the encoder accepts is written as exactly one LF-terminated line whose body the decoder reads "
+    "back as exactly that message (C11_roundtrip: the composition of the value, name and count lemmas over the parameter loop and the field "
+    "assignment, for the canonical parameter order of the derive macro); for every byte string deserialize returns a message or an error and the only "
+    "overflow-checked arithmetic (the value-count decrement) is never reached with zero; the encoder refuses exactly the strings it cannot write "
+    "losslessly. Tied by the codec suite: model and code agree byte for byte in both directions on structured, mutated and exhaustive small inputs, "
+    "and every message the real decoder accepts is re-encoded and decoded again by an implementation-side oracle.")
+PROPS["C11"]["level_note"] = ("Vectors are assumed to hold fewer than 2^64 elements (VecBounded; a Rust Vec cannot hold more). Encoding the same message "
+                              "twice gives the same bytes because serialize is a pure function of the message (checked by the oracle).")
